@@ -803,9 +803,6 @@ def matrix_space_descs(draw):
                                                     'rn_array', 'discr')))
     m1 = draw(st.integers(1, 3))
     m2 = draw(st.integers(1, 3))
-    if m1 < m2 and draw(st.integers(0, 3)) != 0:
-        # wide matrix fields sit in a known crash region of NuclearNorm
-        m1, m2 = m2, m1
     inner = {'kind': 'pspace', 'base': base, 'power': m2, 'weighting': None,
              'exponent': 2.0}
     return {'kind': 'pspace', 'base': inner, 'power': m1, 'weighting': None,
